@@ -252,6 +252,10 @@ func (af *AdaptationField) stuffAF() {
 // delta is how much shifting needs to be done.
 // this function must be called before the field is marked as present.
 func (af *AdaptationField) resizeAF(start int, delta int) error {
+	if af.stuffingStart() > PacketSize {
+		// a length byte inside the field runs past the packet
+		return gots.ErrInvalidPacketLength
+	}
 	if delta > 0 { // shifting for growing
 		end := af.stuffingStart()
 		startRight := start + delta
@@ -533,6 +537,9 @@ func (af *AdaptationField) TransportPrivateData() ([]byte, error) {
 	if !hasTPD {
 		return nil, gots.ErrNoPrivateTransportData
 	}
+	if af.adaptationExtensionStart() > PacketSize {
+		return nil, gots.ErrInvalidPacketLength // the length byte runs past the packet
+	}
 	return af[af.transportPrivateDataStart():af.adaptationExtensionStart()], nil
 }
 
@@ -590,6 +597,9 @@ func (af *AdaptationField) AdaptationFieldExtension() ([]byte, error) {
 	}
 	if !hasAFC {
 		return nil, gots.ErrNoAdaptationFieldExtension
+	}
+	if af.stuffingStart() > PacketSize {
+		return nil, gots.ErrInvalidPacketLength // the length byte runs past the packet
 	}
 	return af[af.adaptationExtensionStart():af.stuffingStart()], nil
 }
